@@ -695,12 +695,34 @@ package keeper
 //@   loop IteratePurchaseOrders.0: invariant forall x uint64 :: {ent_store[kPO(x)]} poHas(ent_store, x) && (!it_valid || x < poKeyId(it_key)) ==> exists j int :: 0 <= j && j < len(purchaseOrders) && purchaseOrders[j].Id == x
 
 // the other genesis listings are read-only; what they list is not under contract (address-keyed sections)
-//@ func Keeper.GetAllLockedUnds(ctx) (r)
-//@   props C15
+// The locked / spent books as listed for export: every stored entry once, in key order, decoded as stored
+// (requires the book invariant: an entry is keyed by its owner's address).
+//@ func Keeper.GetAllLockedUnds(ctx) (lockedUnds)
+//@   props C15 C04
 //@   pure
-//@ func Keeper.GetAllSpentEFUNDs(ctx) (r)
-//@   props C15
+//@   requires ENT_BOOKS_WF(ent_store)
+//@   ensures @ordered forall i int, j int :: {lockedUnds[i], lockedUnds[j]} 0 <= i && i < j && j < len(lockedUnds) ==> bvLt(bytesval(addrOf(lockedUnds[i].Owner)), bytesval(addrOf(lockedUnds[j].Owner)))
+//@   ensures @as_stored forall j int :: {lockedUnds[j]} 0 <= j && j < len(lockedUnds) ==> lockedHas(ent_store, bytesval(addrOf(lockedUnds[j].Owner))) && lockedUnds[j] == lockedRec(ent_store, bytesval(addrOf(lockedUnds[j].Owner)))
+//@   ensures @all_stored forall a `BytesV` :: {ent_store[kLocked(a)]} lockedHas(ent_store, a) ==> exists j int :: 0 <= j && j < len(lockedUnds) && bytesval(addrOf(lockedUnds[j].Owner)) == a
+//@   loop 0: invariant it_store == ent_store && ent_store == old(ent_store) && len(lockedUnds) >= 0
+//@   loop 0: invariant it_valid ==> lockedHas(ent_store, lockedKeyAddr(it_key)) && it_key == kLocked(lockedKeyAddr(it_key))
+//@   loop 0: invariant forall i int, j int :: {lockedUnds[i], lockedUnds[j]} 0 <= i && i < j && j < len(lockedUnds) ==> bvLt(bytesval(addrOf(lockedUnds[i].Owner)), bytesval(addrOf(lockedUnds[j].Owner)))
+//@   loop 0: invariant forall j int :: {lockedUnds[j]} 0 <= j && j < len(lockedUnds) ==> lockedHas(ent_store, bytesval(addrOf(lockedUnds[j].Owner))) && lockedUnds[j] == lockedRec(ent_store, bytesval(addrOf(lockedUnds[j].Owner))) && (it_valid ==> bvLt(bytesval(addrOf(lockedUnds[j].Owner)), lockedKeyAddr(it_key)))
+//@   loop 0: invariant forall a `BytesV` :: {ent_store[kLocked(a)]} lockedHas(ent_store, a) && (!it_valid || bvLt(a, lockedKeyAddr(it_key))) ==> exists j int :: 0 <= j && j < len(lockedUnds) && bytesval(addrOf(lockedUnds[j].Owner)) == a
+
+//@ func Keeper.GetAllSpentEFUNDs(ctx) (spentEFUNDs)
+//@   props C15 C04
 //@   pure
+//@   requires ENT_BOOKS_WF(ent_store)
+//@   ensures @ordered forall i int, j int :: {spentEFUNDs[i], spentEFUNDs[j]} 0 <= i && i < j && j < len(spentEFUNDs) ==> bvLt(bytesval(addrOf(spentEFUNDs[i].Owner)), bytesval(addrOf(spentEFUNDs[j].Owner)))
+//@   ensures @as_stored forall j int :: {spentEFUNDs[j]} 0 <= j && j < len(spentEFUNDs) ==> spentHas(ent_store, bytesval(addrOf(spentEFUNDs[j].Owner))) && spentEFUNDs[j] == spentRec(ent_store, bytesval(addrOf(spentEFUNDs[j].Owner)))
+//@   ensures @all_stored forall a `BytesV` :: {ent_store[kSpent(a)]} spentHas(ent_store, a) ==> exists j int :: 0 <= j && j < len(spentEFUNDs) && bytesval(addrOf(spentEFUNDs[j].Owner)) == a
+//@   loop 0: invariant it_store == ent_store && ent_store == old(ent_store) && len(spentEFUNDs) >= 0
+//@   loop 0: invariant it_valid ==> spentHas(ent_store, spentKeyAddr(it_key)) && it_key == kSpent(spentKeyAddr(it_key))
+//@   loop 0: invariant forall i int, j int :: {spentEFUNDs[i], spentEFUNDs[j]} 0 <= i && i < j && j < len(spentEFUNDs) ==> bvLt(bytesval(addrOf(spentEFUNDs[i].Owner)), bytesval(addrOf(spentEFUNDs[j].Owner)))
+//@   loop 0: invariant forall j int :: {spentEFUNDs[j]} 0 <= j && j < len(spentEFUNDs) ==> spentHas(ent_store, bytesval(addrOf(spentEFUNDs[j].Owner))) && spentEFUNDs[j] == spentRec(ent_store, bytesval(addrOf(spentEFUNDs[j].Owner))) && (it_valid ==> bvLt(bytesval(addrOf(spentEFUNDs[j].Owner)), spentKeyAddr(it_key)))
+//@   loop 0: invariant forall a `BytesV` :: {ent_store[kSpent(a)]} spentHas(ent_store, a) && (!it_valid || bvLt(a, spentKeyAddr(it_key))) ==> exists j int :: 0 <= j && j < len(spentEFUNDs) && bytesval(addrOf(spentEFUNDs[j].Owner)) == a
+
 //@ func Keeper.IterateWhitelist(ctx, cb)
 //@   inline
 //@ func Keeper.GetAllWhitelistedAddresses(ctx) (r)
@@ -714,3 +736,34 @@ package keeper
 //@   modifies ent_store
 //@   ensures @only_the_parameter_key err == nil ==> ent_store == entParamsPut(old(ent_store), entParams(ent_store))
 //@   ensures @rejected_changes_nothing err != nil ==> ent_store == old(ent_store)
+
+// ================================================================ remaining point queries: they report exactly what the keeper reads (C17, C20)
+//@ func Keeper.Params(c, req) (resp, err)
+//@   props C16 C20
+//@   pure
+//@   ensures err == nil && entParamsSet(ent_store) ==> resp.Params == entParams(ent_store)
+//@ func Keeper.TotalLocked(c, req) (resp, err)
+//@   props C17 C04
+//@   pure
+//@   requires ENT_BOOKS_WF(ent_store)
+//@   ensures err == nil && Amt(resp.Amount) == totalLockedAmt(ent_store) && resp.Amount.Denom == entDenom(ent_store)
+//@ func Keeper.TotalUnlocked(c, req) (resp, err)
+//@   props C17
+//@   pure
+//@   requires ENT_BOOKS_WF(ent_store) && 0 <= totalLockedAmt(ent_store) && totalLockedAmt(ent_store) <= bank_supply[entDenom(ent_store)] && bank_supply[entDenom(ent_store)] < P255
+//@   nopanic
+//@   ensures err == nil && Amt(resp.Amount) == bank_supply[entDenom(ent_store)] - totalLockedAmt(ent_store) && resp.Amount.Denom == entDenom(ent_store)
+//@ func Keeper.TotalSpentEFUND(c, req) (resp, err)
+//@   props C04 C20
+//@   pure
+//@   requires ENT_BOOKS_WF(ent_store)
+//@   ensures err == nil && Amt(resp.Amount) == totalSpentAmt(ent_store)
+//@ func Keeper.LockedUndByAddress(c, req) (resp, err)
+//@   props C04 C20
+//@   pure
+//@   requires ENT_BOOKS_WF(ent_store)
+//@   ensures err == nil ==> validBech32(req.Owner) && Amt(resp.Amount) == lockedAmt(ent_store, bytesval(addrOf(req.Owner))) && resp.Amount.Denom == entDenom(ent_store)
+//@ func Keeper.Whitelisted(c, req) (resp, err)
+//@   props C03 C20
+//@   pure
+//@   ensures err == nil ==> validBech32(req.Address) && resp.Whitelisted == wlHas(ent_store, bytesval(addrOf(req.Address))) && resp.Address == req.Address
